@@ -141,7 +141,7 @@ void regCscFull() {
 }
 
 void registerCsc() {
-#ifdef C11_FULL
+#if 0 // full matrix: see c11_x_*.cpp
   regCscFull<void>();
   regCscFull<uint32_t>();
   regCscFull<uint64_t>();
